@@ -157,6 +157,124 @@ fn parse_rendered_full(src: &str) -> Vec<(String, Vec<(String, String, String)>)
     out
 }
 
+
+// ------------------------------------------------------------------------------------------------ rendered schema vs oracle
+/// Compare the RENDERED structs with the oracle schema: for every position the attribute fields (Option iff not on every
+/// occurrence), the text field, the child fields (Option iff not in every occurrence, Vec iff somewhere more than once),
+/// String-typing of text-only children, one struct per other position.  `exact` = C03 (iff), otherwise C01 (soundness:
+/// nothing required that is missing somewhere, nothing single that repeats, every name has a field).
+/// Only for plain names (no prefix, no renaming): otherwise no verdict.
+fn cmp_rendered(out: &str, s: &oracle::S, exact: bool) -> Option<String> {
+    let structs = parse_rendered_full(out);
+    if structs.is_empty() {
+        return None;
+    }
+    fn plain(n: &str) -> bool {
+        !n.is_empty() && n.chars().all(|c| c.is_ascii_lowercase() || c.is_ascii_digit()) && n.chars().next().unwrap().is_ascii_lowercase()
+            && !["type", "self", "crate", "loop", "text", "as", "in", "fn", "if", "mod", "use", "pub", "ref", "box", "do", "dyn", "try", "for", "let", "mut", "impl", "move", "else", "enum", "true", "false", "match", "super", "trait", "where", "while", "async", "await", "break", "const", "macro", "yield", "static", "struct", "unsafe", "extern", "return", "typeof", "unsized", "virtual", "abstract", "continue", "override", "priv", "final", "become"].contains(&n)
+    }
+    fn all_plain(s: &oracle::S) -> bool {
+        let mut names: Vec<&String> = s.attrs.iter().map(|(_, a)| a).collect();
+        names.extend(s.kids.iter().map(|(_, _, k)| &k.name));
+        let mut d = names.clone();
+        d.sort();
+        d.dedup();
+        d.len() == names.len() && names.iter().all(|n| plain(n)) && s.kids.iter().all(|(_, _, k)| all_plain(k))
+    }
+    if !all_plain(s) {
+        return None;
+    }
+    fn strip<'a>(t: &'a str, w: &str) -> Option<&'a str> {
+        t.strip_prefix(w).and_then(|r| r.strip_prefix('<')).and_then(|r| r.strip_suffix('>'))
+    }
+    fn walk(structs: &Vec<(String, Vec<(String, String, String)>)>, sname: &str, s: &oracle::S, path: &str, exact: bool, seen: &mut Vec<String>) -> Option<String> {
+        let p = format!("{}/{}", path, s.name);
+        let defs: Vec<&(String, Vec<(String, String, String)>)> = structs.iter().filter(|x| x.0 == sname).collect();
+        if defs.len() != 1 {
+            return Some(format!("{p}: {} definitions of struct {sname} in the rendering", defs.len()));
+        }
+        seen.push(sname.to_string());
+        let fields = &defs[0].1;
+        let mut used = vec![false; fields.len()];
+        for (m, a) in &s.attrs {
+            let key = format!("@{a}");
+            let hits: Vec<usize> = fields.iter().enumerate().filter(|(_, f)| f.2 == key).map(|(i, _)| i).collect();
+            if hits.len() != 1 {
+                return Some(format!("{p}: {} fields for attribute {a:?} in struct {sname}", hits.len()));
+            }
+            used[hits[0]] = true;
+            let ty = &fields[hits[0]].1;
+            let opt = strip(ty, "Option").is_some();
+            if !opt && !*m {
+                return Some(format!("{p}: attribute {a:?} is rendered as required ({ty}) but some occurrence lacks it"));
+            }
+            if exact && opt && *m {
+                return Some(format!("{p}: attribute {a:?} is rendered as {ty} although every occurrence has it"));
+            }
+        }
+        let text_hits: Vec<usize> = fields.iter().enumerate().filter(|(_, f)| f.2 == "$text").map(|(i, _)| i).collect();
+        if s.text && text_hits.is_empty() {
+            return Some(format!("{p}: occurrences have character data but struct {sname} has no text field"));
+        }
+        if exact && !s.text && !text_hits.is_empty() {
+            return Some(format!("{p}: struct {sname} has a text field although no occurrence has character data"));
+        }
+        for i in text_hits {
+            used[i] = true;
+        }
+        for (m, st, k) in &s.kids {
+            let hits: Vec<usize> = fields.iter().enumerate().filter(|(_, f)| f.2 == k.name).map(|(i, _)| i).collect();
+            if hits.len() != 1 {
+                return Some(format!("{p}: {} fields for child {:?} in struct {sname}", hits.len(), k.name));
+            }
+            used[hits[0]] = true;
+            let ty = fields[hits[0]].1.as_str();
+            let (opt, t1) = match strip(ty, "Option") { Some(r) => (true, r), None => (false, ty) };
+            let (vec, inner) = match strip(t1, "Vec") { Some(r) => (true, r), None => (false, t1) };
+            if !opt && !*m {
+                return Some(format!("{p}: child {:?} is rendered as required ({ty}) but some occurrence of its parent lacks it", k.name));
+            }
+            if !vec && !*st {
+                return Some(format!("{p}: child {:?} is rendered as single ({ty}) but some occurrence of its parent has it more than once", k.name));
+            }
+            if exact && opt && *m {
+                return Some(format!("{p}: child {:?} is rendered as {ty} although every occurrence of its parent has it", k.name));
+            }
+            if exact && vec && *st {
+                return Some(format!("{p}: child {:?} is rendered as {ty} although no occurrence of its parent has it more than once", k.name));
+            }
+            let text_only = k.text && k.attrs.is_empty() && k.kids.is_empty();
+            if inner == "String" {
+                if !text_only && (exact || !k.attrs.is_empty() || !k.kids.is_empty()) {
+                    return Some(format!("{p}: child {:?} is typed String but it has attributes or children (or no character data)", k.name));
+                }
+            } else {
+                if exact && text_only {
+                    return Some(format!("{p}: text-only child {:?} is not typed String ({ty})", k.name));
+                }
+                if let Some(e) = walk(structs, inner, k, &p, exact, seen) {
+                    return Some(e);
+                }
+            }
+        }
+        if exact {
+            if let Some(i) = used.iter().position(|u| !*u) {
+                return Some(format!("{p}: struct {sname} has a field {:?} that corresponds to nothing in the documents", fields[i].0));
+            }
+        }
+        None
+    }
+    let mut seen = Vec::new();
+    let first = structs[0].0.clone();
+    if let Some(e) = walk(&structs, &first, s, "", exact, &mut seen) {
+        return Some(e);
+    }
+    if exact && seen.len() != structs.len() {
+        return Some(format!("the rendering defines {} structs, the documents determine {}", structs.len(), seen.len()));
+    }
+    None
+}
+
 // ------------------------------------------------------------------------------------------------ per-sequence checks
 fn check_docs(prop: &str, docs: &[Vec<u8>]) -> Option<String> {
     let nodes: Vec<Node> = match docs.iter().map(|d| dom(d)).collect::<Option<Vec<_>>>() {
@@ -179,9 +297,24 @@ fn check_docs(prop: &str, docs: &[Vec<u8>]) -> Option<String> {
                     return Some(e);
                 }
             }
+            for o in [Options::quick_xml_de()] {
+                if let Some(e) = cmp_rendered(&root.to_serde_struct(&o), &infer(&occ), false) {
+                    return Some(format!("rendered structs: {e}"));
+                }
+            }
             None
         }
-        "C03" => cmp_exact(&v, &infer(&occ), ""),
+        "C03" => {
+            if let Some(e) = cmp_exact(&v, &infer(&occ), "") {
+                return Some(e);
+            }
+            for o in [Options::quick_xml_de()] {
+                if let Some(e) = cmp_rendered(&root.to_serde_struct(&o), &infer(&occ), true) {
+                    return Some(format!("rendered structs: {e}"));
+                }
+            }
+            None
+        }
         "C09" => {
             if let Some(e) = cmp_order(&v, &infer(&occ), "") {
                 return Some(e);
@@ -717,6 +850,9 @@ fn check_c06(docs: &[Vec<u8>]) -> Option<String> {
     let occ: Vec<&Node> = nodes.iter().collect();
     if let Some(e) = cmp_exact(&vb, &infer(&occ), "") {
         return Some(format!("not the schema of the union of all occurrences: {e}"));
+    }
+    if let Some(e) = cmp_rendered(&base.to_serde_struct(&Options::quick_xml_de()), &infer(&occ), true) {
+        return Some(format!("the rendering is not the schema of the union of all occurrences: {e}"));
     }
     // a failed extension reports an error (the caller keeps nothing partial): by type, Err carries no tree
     if let Ok(_) = extend_struct(&mut Reader::from_reader(&b"<r><unclosed></r>"[..]), base.clone()) {
